@@ -1,19 +1,89 @@
 package main
 
 // C01, framing only: whatever the requests contain, the proxy writes exactly one reply for each.
-//   case line:  <n> <token> [slow|late] # <request> ; <request> ; ...   (slow: 600 ms nodes behind a 250 ms idle timeout; late: a node answering after 3.3 s)      (n requests, every command name the proxy or Redis knows,
+//   case line:  <n> <token> [slow|late|cross|flush] # <request> ; <request> ; ...   (slow: 600 ms nodes behind a 250 ms idle timeout; late: a node answering after 3.3 s)      (n requests, every command name the proxy or Redis knows,
 //               arguments with CR LF and reply look-alikes in every position)
 //   the client writes the n requests and then GET <sentinel key>, whose value is <token> (set beforehand over another
 //   connection); it reads replies until one is the bulk string <token>
 //   output:     replies=<number of replies read, the sentinel's included> | TIMEOUT after <k> replies | BAD-REPLY
 
 import (
+	"bufio"
 	"fmt"
 	"net"
 	"strconv"
 	"strings"
 	"time"
+
+	"github.com/samaritan-proxy/samaritan/proc/redis"
 )
+
+// slowFlushConn: Write returns a while after the peer has received the bytes - the goroutine that wrote is held up
+// between its flush and whatever it does next
+type slowFlushConn struct {
+	net.Conn
+	delay time.Duration
+}
+
+func (s *slowFlushConn) Write(b []byte) (int, error) {
+	n, err := s.Conn.Write(b)
+	time.Sleep(s.delay)
+	return n, err
+}
+
+// slowFlush: a real backend client (loopWrite, loopRead) over such a connection to a node that answers at once: every
+// reply reaches the client's reader before the writer has handed the request over to it. Each request still gets exactly
+// its own reply (the reader waits for the request the reply belongs to).
+func slowFlush(token []byte) string {
+	seed, real := "10.7.0.1:7000", "10.7.0.2:7000"
+	env := redis.VerifNewEnv([]string{seed}, 0, &redis.VerifCompression{})
+	defer env.Close()
+	env.SetAnswer(func(addr string, body *redis.RespValue) *redis.RespValue {
+		switch lowerASCII(body.Array[0].Text) {
+		case "get":
+			return rErr("MOVED 1 " + real) // the seed owns nothing: the real client's node does
+		case "cluster":
+			return rErr("ERR not now")
+		}
+		return &redis.RespValue{Type: redis.SimpleString, Text: []byte("OK")}
+	})
+	a, b := net.Pipe()
+	defer a.Close()
+	defer b.Close()
+	go func() { // the node
+		br := bufio.NewReader(b)
+		for {
+			v, err := wireRead(br)
+			if err != nil {
+				return
+			}
+			rp := wSimple("OK")
+			if v.t == '*' && len(v.a) == 2 && asciiLowerB(v.a[0].s) == "get" {
+				rp = wBulk(append([]byte("value-of-"), v.a[1].s...))
+			}
+			if _, err := b.Write(rp.bytes()); err != nil {
+				return
+			}
+		}
+	}()
+	if err := env.AddRealBackend(real, &slowFlushConn{Conn: a, delay: 120 * time.Millisecond}); err != nil {
+		return "SETUP-FAILED"
+	}
+	for i := 0; i < 5; i++ {
+		key := fmt.Sprintf("%s-%d", token, i)
+		reply, timedOut := env.Do(arr(bulk("get"), bulk(key)), 3*time.Second)
+		if timedOut || reply == nil {
+			return fmt.Sprintf("TIMEOUT after %d replies", i)
+		}
+		if string(reply.Text) != "value-of-"+key {
+			return fmt.Sprintf("BAD-REPLY %q for request %d", reply.Text, i)
+		}
+	}
+	if len(env.Panics()) > 0 {
+		return "PANIC"
+	}
+	return "replies=1"
+}
 
 var c01Hostile = []string{"x\r\n+OK", "\r\n", "1\r\n:2", "-ERR x\r\n", "$-1\r\n", "*2\r\n", "abc", "", "0", "-1", "18446744073709551616", "k1", "{t}a", "match", "count", "\n", "\r"}
 
@@ -94,6 +164,9 @@ func init() {
 			f := strings.Fields(hd[0])
 			token := []byte(f[1])
 			sp := spFast
+			if len(f) > 2 && f[2] == "flush" {
+				return slowFlush(token)
+			}
 			if len(f) > 2 && f[2] == "cross" {
 				// a connection goes away with forty requests still on their way to slow nodes; another connection keeps
 				// asking for its own key: every reply it gets is its own
@@ -185,6 +258,7 @@ func init() {
 		emit(fmt.Sprintf("2 tok%d_slow slow # %s ; %s", *fSeed, bulkArr([]byte("get"), []byte("k1")).String(), bulkArr([]byte("set"), []byte("k2"), []byte("v")).String()))
 		emit(fmt.Sprintf("0 tok%d_late late # -", *fSeed))
 		emit(fmt.Sprintf("0 tok%d_cross cross # -", *fSeed))
+		emit(fmt.Sprintf("0 tok%d_flush flush # -", *fSeed))
 		// every command name once with hostile arguments, then random sequences
 		mk := func(name string) string {
 			args := [][]byte{mixCase(r, name)}
